@@ -108,6 +108,10 @@ def plan(tier, seed):
     for sc in SCRIPTS_T5:
         p.append(("sim", dict(skeleton="T5", script=sc, date="first", n=2, toggles=["reset", "set", "reset"])))
     p.append(("sim", dict(skeleton="T1", script=[num("job", "data_transferred")], second=[num("srv", "power")], date="interior", toggles=["set", "reset"])))
+    # a dated simulation refused by the allowed-values check (on-premise server with a fixed count switched to autoscaling)
+    for d in ("first", "interior"):
+        p.append(("sim", dict(skeleton="T5", args={"type1": "on-premise", "type2": "serverless", "fixed1": 40},
+                              script=[dict(k="server_type", obj="srv", t="autoscaling")], date=d, n=2, toggles=["set", "reset"])))
     p.append(("sim", dict(skeleton="T9", script=[L("job", "server", "srv_alt")], second=[num("job2", "ram_needed")], date="first", n=2, toggles=["set", "reset", "set", "reset"])))
     p.append(("sim", dict(skeleton="T9", script=[num("dev", "power")], second=[L("up", "network", "net_alt")], date="interior", n=3, toggles=["set", "reset"])))
     if tier == "thorough":
